@@ -62,9 +62,15 @@ bool handshake_pow_valid(const PeerId&, const PeerId&, std::uint32_t initiator_p
 }
 #include SNIP_PERFORM_HANDSHAKE
 #ifdef VERIF_RACE
+} namespace ephemeralnet::protocol { bool is_supported_message_version(std::uint8_t v) noexcept { return v >= kMinimumMessageVersion && v <= kCurrentMessageVersion; } }   // as in protocol/Message.cpp (the codec is C15/C16)
+namespace ephemeralnet { namespace { using SchedulerLock = std::unique_lock<std::recursive_mutex>; }
+#include SNIP_VERSION_SUPPORTED
+#include SNIP_PREFERRED_VERSION
 #include SNIP_ROTATE_SESSION_KEYS
 #include SNIP_SESSION_KEY
 #include SNIP_SESSION_SHARED_KEY
+#include SNIP_NOTE_VERSION
+#include SNIP_OUTBOUND_VERSION
 #endif
 }
 // Engine S: the Diffie-Hellman secret (modular exponentiation of a symbolic base) is an uninterpreted function of (private, public)
@@ -169,7 +175,7 @@ extern "C" void h_c20_history_pow(unsigned long k) {
 // made in a role is logged with the set of mutexes held; the driver then requires a common mutex for every pair of roles that can run
 // concurrently and touch the same member, at least one of them writing.
 namespace { std::mutex g_node_mutex; }
-extern "C" void h_c36_locksets(unsigned long) {
+extern "C" void h_c36_locksets(unsigned long rounds) {
     PartialNode pn; Node* n = pn.node();
     n->config_.handshake_pow_difficulty = 0; n->config_.handshake_cooldown = std::chrono::seconds(nondet_u8("cooldown_s") & 15);
     verif_env::start_clock();
@@ -177,14 +183,18 @@ extern "C" void h_c36_locksets(unsigned long) {
     verif_watch(&n->key_manager_, sizeof n->key_manager_, "Node::key_manager_");
     verif_watch(&n->handshake_state_, sizeof n->handshake_state_, "Node::handshake_state_");
     verif_watch(&n->reputation_, sizeof n->reputation_, "Node::reputation_");
+    new (&n->peer_message_versions_) decltype(n->peer_message_versions_)(); verif_watch(&n->peer_message_versions_, sizeof n->peer_message_versions_, "Node::peer_message_versions_");
+    n->key_manager_.~KeyManager(); new (&n->key_manager_) network::KeyManager(std::chrono::seconds(2));      // rotations become due within the horizon
     // a session exists already (so that rotation and look-ups have something to work on)
     (void)n->perform_handshake(remote_id(), 7, 1);
-    for (int round = 0; round < 2; ++round) {
+    for (unsigned long round = 0; round < rounds; ++round) {
         verif_env::advance_clock();
         verif_context("accept-thread");
         (void)n->perform_handshake(remote_id(), nondet_u32("offered_public"), nondet_u64("nonce"));
         verif_context("reader-thread");
         (void)n->session_shared_key(remote_id());
+        n->note_peer_message_version(nondet_bool("known_peer") ? remote_id() : n->id_, nondet_u8("message_version") & 7);      // handle_transport_message, every inbound message
+        (void)n->outbound_message_version_for(remote_id());
         verif_context("tick-thread");
         { std::scoped_lock lock(g_node_mutex); n->rotate_session_keys(std::chrono::steady_clock::now()); }
         // the serve loop also handshakes: tick -> process_pending_fetches -> dispatch_pending_fetch -> request_chunk -> ensure_bootstrap_handshake
